@@ -263,3 +263,42 @@ Qed.
 
 Lemma z_num_opp s : z_num (- s) = - z_num s.
 Proof. unfold z_num. destruct (- s >? 0) eqn:E1; destruct (- s <? 0) eqn:E2; destruct (s >? 0) eqn:E3; destruct (s <? 0) eqn:E4; lia. Qed.
+
+(** ** extremal series: tau = 1 exactly for a strictly increasing series, -1 for a strictly
+    decreasing one, S = 0 for a constant one *)
+Lemma row_s_all_greater a r : Forall (fun b => a < b) r -> row_s a r = Z.of_nat (length r).
+Proof.
+  induction 1 as [|b r Hb _ IH]; cbn [row_s length]; [reflexivity|]. rewrite IH. unfold sgn_pair.
+  destruct (Z.gtb_spec b a); lia.
+Qed.
+
+Lemma mk_s_increasing x :
+  StronglySorted Z.lt x -> let n := Z.of_nat (length x) in 2 * mk_s x = n * (n - 1).
+Proof.
+  induction 1 as [|a r _ IH Ha]; cbn [mk_s length]; [reflexivity|].
+  rewrite (row_s_all_greater a r Ha). cbn zeta in IH. nia.
+Qed.
+
+Lemma sorted_gt_opp x : StronglySorted Z.gt x -> StronglySorted Z.lt (map Z.opp x).
+Proof.
+  induction 1 as [|a r _ IH Ha]; cbn [map]; constructor; [exact IH|].
+  apply Forall_map. eapply Forall_impl; [|exact Ha]. cbn. intros b Hb. lia.
+Qed.
+
+Lemma mk_s_decreasing x :
+  StronglySorted Z.gt x -> let n := Z.of_nat (length x) in 2 * mk_s x = - (n * (n - 1)).
+Proof.
+  intros H. pose proof (mk_s_increasing _ (sorted_gt_opp x H)) as E. cbn zeta in *.
+  rewrite mk_s_neg, map_length in E. lia.
+Qed.
+
+Lemma row_s_const a r : Forall (fun b => b = a) r -> row_s a r = 0.
+Proof.
+  induction 1 as [|b r -> _ IH]; cbn [row_s]; [reflexivity|]. rewrite IH. unfold sgn_pair.
+  destruct (Z.gtb_spec a a); destruct (Z.ltb_spec a a); lia.
+Qed.
+
+Lemma mk_s_constant c x : Forall (fun b => b = c) x -> mk_s x = 0.
+Proof.
+  induction 1 as [|b r -> Hr IH]; cbn [mk_s]; [reflexivity|]. now rewrite (row_s_const c r Hr), IH.
+Qed.
